@@ -105,9 +105,14 @@ func LoadLocation(name string) (*Location, error) { return time.LoadLocation(nam
 
 // ---- timers on the virtual clock ----------------------------------------------------------------
 //
-// A timer fires when the virtual clock has reached its deadline, i.e. at a clock read / Sleep at or
-// after it (the clock only moves at ticks and sleeps). Outside the scheduler the real package is used
-// through thin wrappers whose channel is fed by a goroutine.
+// A timer fires when the virtual clock has reached its deadline: at a clock read / Sleep at or after
+// it, or - real time passes however slow the rest of the system is - at ANY scheduling point: the first
+// timer of an execution starts a "timekeeper" thread which the explorer may schedule like any other
+// thread (running it while another thread could run costs a preemption; when every other thread is
+// blocked it runs for free: time passes while everybody waits). When it runs it moves the virtual clock
+// to the earliest pending deadline and fires what is due. It fires at most maxKeeperFirings times per
+// execution (periodic timers would otherwise never let an execution end). Outside the scheduler the
+// real package is used through thin wrappers whose channel is fed by a goroutine.
 
 type Timer struct {
 	C      *zzvrt.Chan[Time]
@@ -125,9 +130,51 @@ type Ticker struct {
 }
 
 var (
-	timersOf *zzvrt.Exec
-	timers   []*Timer
+	timersOf    *zzvrt.Exec
+	timers      []*Timer
+	keeperAlive bool
+	keeperFired int
 )
+
+const maxKeeperFirings = 4
+
+// earliest returns the live timer with the earliest deadline.
+func earliest() *Timer {
+	var e *Timer
+	for _, t := range timers {
+		if t.live && (e == nil || t.when.Before(e.when)) {
+			e = t
+		}
+	}
+	return e
+}
+
+// ensureKeeper starts the timekeeper thread of the current execution if a live timer has none.
+func ensureKeeper(x *zzvrt.Exec) {
+	if keeperAlive || keeperFired >= maxKeeperFirings {
+		return
+	}
+	keeperAlive = true
+	zzvrt.GoNamed("timekeeper", func() {
+		defer func() { keeperAlive = false }()
+		for keeperFired < maxKeeperFirings && timersOf == x {
+			if earliest() == nil {
+				return
+			}
+			zzvrt.Point(zzvrt.KTime, nil) // the others may run first (or be preempted here)
+			t := earliest()
+			if t == nil {
+				return
+			}
+			if x.Now.Before(t.when) {
+				x.Now = t.when
+				zzvrt.Tracef("time passes: clock at %s (timer due)", x.Now.Format("2006-01-02T15:04:05.000"))
+			}
+			keeperFired++
+			fire(x)
+		}
+	})
+}
 
 func addTimer(d Duration, period Duration, f func()) *Timer {
 	x := zzvrt.Cur()
@@ -142,10 +189,11 @@ func addTimer(d Duration, period Duration, f func()) *Timer {
 		return t
 	}
 	if timersOf != x {
-		timersOf, timers = x, nil
+		timersOf, timers, keeperAlive, keeperFired = x, nil, false, 0
 	}
 	t.when = x.Now.Add(d)
 	timers = append(timers, t)
+	ensureKeeper(x)
 	return t
 }
 
@@ -162,7 +210,12 @@ func fire(x *zzvrt.Exec) {
 				zzvrt.Select(true, t.C.SendCase(x.Now))
 			}
 			if t.period > 0 {
+				// a ticker drops ticks its receiver is too slow for: after a long jump of the clock one tick is
+				// delivered and the next is due one period after the current instant's grid point
 				t.when = t.when.Add(t.period)
+				if behind := x.Now.Sub(t.when); behind > 0 {
+					t.when = t.when.Add((behind/t.period + 1) * t.period)
+				}
 			} else {
 				t.live = false
 			}
@@ -193,6 +246,9 @@ func (t *Timer) Reset(d Duration) bool {
 	t.live = true
 	if x := zzvrt.Cur(); x != nil {
 		t.when = x.Now.Add(d)
+		if timersOf == x {
+			ensureKeeper(x)
+		}
 	}
 	return was
 }
